@@ -31,9 +31,7 @@ PID = "C02"
 WORK = os.path.join(vlib.WORK, "C02")
 RUN = os.path.join(WORK, "run")
 KEYS = os.path.join(WORK, "keys")
-THEOREMS = ["crc_ok", "crc_bridge", "hmac_ok", "enc_roundtrip", "sig_range_v1", "certblock_lengths_v1", "sig_range_v21",
-            "manifest_digest", "coverage_mbi", "kinds_cover_database", "hmac_short_app_refuted", "enc_app64_refuted",
-            "digest_alg_mismatch_refuted"]
+THEOREMS = ["crc_bridge", "crc_ok", "sig_range_v1", "certblock_lengths_v1", "hmac_ok", "coverage_mbi", "kinds_cover_database"]
 MIXIN_IDS = ["MixinApp", "MixinTrustZone", "MixinTrustZoneMandatory", "MixinLoadAddress", "MixinLoadAddressOptional",
              "MixinFwVersion", "MixinImageVersion", "MixinImageSubType", "MixinIvt", "MixinIvtZeroTotalLength",
              "MixinBcaTable", "MixinBcaObsolete", "MixinFcfObsolete", "MixinRelocTable", "MixinManifest", "MixinManifestCrc",
